@@ -4,9 +4,15 @@ Model of the module scheduler of pydoctor/model.py:
 `System.unprocessed_modules`, and `driver.main`'s exit status.
 
 A module is (parses?, the list of modules its body asks `getProcessedModule` for, in source
-order).  Visiting a body = walking that list; an import of a module that is UNPROCESSED
-processes it on the spot (nested), one that is PROCESSING (import cycle) or PROCESSED is
-returned as it is.  An unparsable file is reported once and stays in state PROCESSING.
+order, the packages above it — its `parent` chain — outermost first).  Visiting a body = walking
+the list; a request for a module that is UNPROCESSED first processes the UNPROCESSED packages above
+that module, outermost first, then the module itself if it still is UNPROCESSED (nested calls); a
+module that is PROCESSING (import cycle) or PROCESSED is returned as it is, and the packages above
+it are not looked at.  An unparsable file is reported once and stays in state PROCESSING.
+
+Follows /repo 0ba6723 (`getProcessedModule`: "the packages above the module go first, outermost
+first") and 824faae (`import a.b.c` asks for a, a.b, a.b.c: three entries of `imports`).  With
+`above = []` everywhere this is the scheduler as it was before 0ba6723.
 
 Import-free, executable.
 -/
@@ -18,6 +24,7 @@ inductive PState | unprocessed | processing | processed
 structure Mod where
   parses : Bool
   imports : List Nat          -- targets of getProcessedModule in body order (ids; unknown names are dropped)
+  above : List Nat            -- the packages above the module (`mod.parent`, its parent, …), OUTERMOST FIRST
   deriving Repr, Inhabited
 
 inductive Event
@@ -39,6 +46,12 @@ def setSt (l : List PState) (i : Nat) (v : PState) : List PState := l.set i v
 
 def getSt (s : State) (m : Nat) : PState := s.st.getD m .processed
 
+/-- `above` of module `t` (no packages above an unknown id) -/
+def aboveOf (mods : List Mod) (t : Nat) : List Nat :=
+  match mods[t]? with
+  | some md => md.above
+  | none => []
+
 mutual
 /-- `System.processModule(mod)`; fuel bounds the nesting depth -/
 def processModule (mods : List Mod) : Nat → State → Nat → State
@@ -56,11 +69,18 @@ def processModule (mods : List Mod) : Nat → State → Nat → State
         else
           let s2 := visitBody mods f { s1 with log := s1.log ++ [.visit m] } m md.imports
           { s2 with st := setSt s2.st m .processed, log := s2.log ++ [.finish m] }
-/-- the import statements of a body, in order: `getProcessedModule(t)` each -/
+/-- `for pack in reversed(above): if pack.state is UNPROCESSED: self.processModule(pack)` -/
+def processAbove (mods : List Mod) : Nat → State → List Nat → State
+  | _, s, [] => s
+  | f, s, p :: ps =>
+    processAbove mods f (if getSt s p = .unprocessed then processModule mods f s p else s) ps
+/-- the import statements of a body, in order: `getProcessedModule(t)` each:
+`if mod.state is UNPROCESSED: <the packages above first>`; `if mod.state is UNPROCESSED: processModule(mod)` -/
 def visitBody (mods : List Mod) : Nat → State → Nat → List Nat → State
   | _, s, _, [] => s
   | f, s, m, t :: ts =>
-    let s1 := if getSt s t = .unprocessed then processModule mods f s t else s
+    let s0 := if getSt s t = .unprocessed then processAbove mods f s (aboveOf mods t) else s
+    let s1 := if getSt s0 t = .unprocessed then processModule mods f s0 t else s0
     visitBody mods f { s1 with log := s1.log ++ [.sees m t (getSt s1 t)] } m ts
 end
 
